@@ -356,32 +356,105 @@ def all_violations(tier: str, stats: Stats) -> list[Violation]:
     return own_writes(tier, stats) + completeness(tier, stats) + diff_laws(tier, stats)
 
 
+# ---- (v) the same in vivo: the closed loop ---------------------------------------------------------------
+
+def _loop_scenarios(tier: str) -> list[Any]:
+    from kv.explorer import Env
+    from kv.harness.change import ChangeScenario
+
+    class C04Loop(ChangeScenario):
+        """An object (with a spec / with an EMPTY essence) in the real loop: change handlers fire exactly for the essential
+        edits of the user - once for the creation, once per essential edit, never for the operator's own writes, the status
+        stanza or system metadata - and the operator falls silent."""
+        name = 'c04-loop'
+        prop = 'C04'
+
+        def check(self, env: Env) -> list[Violation]:
+            if env.end_reason in ('stall', 'livelock', 'step-budget', 'deadlock'):
+                return [self.viol(env, 'no-progress', f'execution ended with {env.end_reason}', end=env.end_reason)]
+            if env.deviations or self.carveouts(env) or env.owes():
+                return []
+            out = []
+            essential = [(t, p['name']) for t, k, p in env.obs if k == 'user' and p['name'].startswith(('spec', 'label', 'annotate'))]
+            calls = [(t, p['id'], p.get('reason')) for t, k, p in env.obs if k == 'call' and p.get('reason') in ('create', 'update')]
+            want = [('c1', 'create')] + [('u1', 'update')] * len(essential)
+            got = [(i, r) for _, i, r in calls]
+            if got != want:
+                out.append(self.viol(env, 'change-handling-not-exact',
+                                     f"essential edits at {essential}; change handlers ran as {calls}, exactly {want} was due",
+                                     clause='triggered-only-by-essential-changes', direction='more' if len(got) > len(want) else 'fewer',
+                                     bare=bool(self.params.get('bare'))))
+            writes = [w['t'] for w in self.op_writes(env)]
+            t_last = max([t for t, _ in essential] + [1.0])
+            late = [t for t in writes if t > t_last + 10]
+            if late:
+                out.append(self.viol(env, 'self-triggering', f"the operator keeps writing to the object long after the last edit ({t_last}): {late[:5]}",
+                                     clause='never-triggers-itself'))
+            return out
+    globals()['C04Loop'] = C04Loop
+    out = []
+    edits = [[], [('status', 'a', 1)], [('annotate', 'a', 'user/note', 'x')], [('status', 'a', 1), ('label', 'a', 'l', 'v'), ('status', 'a', 2)],
+             [('addfin', 'a', 'other/fin'), ('spec', 'a', 2), ('delfin', 'a', 'other/fin')]]
+    for bare in (False, True):
+        for storage in ('annotations', 'status'):
+            for sub in ((False, True) if storage == 'status' else (False,)):
+                for ed in edits:
+                    if bare and any(a[0] == 'spec' for a in ed):
+                        continue
+                    user = [(1.0, 'createbare' if bare else 'create', 'a')] + [(6.0 + 5 * i, *a) for i, a in enumerate(ed)]
+                    handlers = [dict(id='c1', on='create', script=['ok']), dict(id='u1', on='update', script=['ok'])]
+                    out.append(C04Loop(handlers=handlers, user=user, horizon=6.0 + 5 * len(ed) + 25, bare=bare, storage=storage, sub=sub,
+                                       settings={'persistence__consistency_timeout': 5.0}, delays=False, early_user=False, time_dev=False))
+    return out
+
+
 def run(tier: str, seed: int) -> CheckResult:
+    from kv.runner import run_groups
     stats = Stats()
     viols = all_violations(tier, stats)
+    st2, v2, info, nscen = run_groups([('closed-loop', _loop_scenarios(tier), 0, 40.0)], seed=seed)
+    stats.merge(st2)
+    viols = viols + v2
     stats.outcomes = set(stats.nontrivial)
     stats.bound_completed = 0
     return CheckResult(
-        prop='C04', tier=tier, seed=seed, stats=stats, violations=viols, scenarios=3, bound_requested=0,
-        extra={'parts': ['own-writes state graph', 'completeness mutations', 'diff laws'],
+        prop='C04', tier=tier, seed=seed, stats=stats, violations=viols, scenarios=3 + nscen, bound_requested=0,
+        extra={'parts': ['own-writes state graph', 'completeness mutations', 'diff laws', 'closed loop'], 'groups': info,
                'state_graph_depth': 2 if tier == 'quick' else 3, 'configs': [c.name for c in configs(tier)]},
         rule="(i)/(ii) breadth-first state graph from 4 seed bodies (bare, rich, ReplicaSet owned by a Deployment, ConfigMap with a "
              "foreign finalizer): every framework write operation (store x 4 ids x 2 records, purge, touch, diff-base store, finalizer "
              "block/allow, result delivery) applied via an independent RFC 7386 merge, to depth 2 (quick) / 3, for every storage "
              "configuration, the essence checked for the writer AND for every other configuration as observer; (iii) single-field "
              "mutations; (iv) all ordered pairs of a universe of small JSON values/bodies (nesting <= 2/3) for the diff laws; "
-             "non-trivial = the operation changed the body / the pair has a non-empty diff",
+             "(v) the closed loop: objects with a spec / with an empty essence x storage {annotations, status (with and without the "
+             "subresource)} x edit sequences (status, ordinary annotation, label, foreign finalizer, spec): change handlers run exactly once per "
+             "essential edit and the operator falls silent; non-trivial = the operation changed the body / the pair has a non-empty diff",
         assumptions=["a null-valued member of a mapping is compared as absent (Kubernetes never stores nulls)",
                      "JSON equality distinguishes booleans from numbers"],
         level='model_checking')
 
 
+def scenario_from(name: str, params: dict[str, Any]) -> Any:
+    _loop_scenarios('quick')
+    return globals()['C04Loop'](**params)
+
+
 def reverify(v: Violation) -> bool:
+    if v.scenario == 'c04-loop':
+        from kv.runner import default_reverify
+        return default_reverify(v)
     return any(x.key() == v.key() for x in all_violations('quick', Stats())) or \
         any(x.key() == v.key() for x in all_violations('thorough', Stats()))
 
 
 def replay(rec: dict[str, Any]) -> int:
+    if rec['scenario'] == 'c04-loop':
+        from kv.explorer import execute
+        env = execute(scenario_from(rec['scenario'], rec['params']), rec['labels'])
+        viols = getattr(env, 'violations', [])
+        for v in viols:
+            print('VIOLATION', v.kind, v.message)
+        return 1 if viols else 0
     viols = [v for v in all_violations('thorough', Stats()) if _sig(v) == rec['signature']]
     for v in viols:
         print('VIOLATION', v.kind, v.message)
